@@ -87,6 +87,8 @@ def min_len(pc, seq: T) -> int:
     if render.assume_lookup(a, seq) is True:
         best = 1
     for c, pol in _atoms(pc):
+        if c == LEN and pol:
+            best = max(best, 1)         # `if len(seq):`
         if c.op != "cmp":
             continue
         op, l, r = c.a
